@@ -52,6 +52,8 @@ package home
 //@   ensures blocked-needs-record: left > 0 ==> old(usrID in ab.failedAuths) && old(ab.failedAuths[usrID]).num >= ab.maxAttempts
 //@   ensures record-kept: left > 0 ==> usrID in ab.failedAuths && ab.failedAuths[usrID] == old(ab.failedAuths[usrID])
 //@   ensures no-new: forall u string :: u in ab.failedAuths ==> old(u in ab.failedAuths) && ab.failedAuths[u] == old(ab.failedAuths[u])
+//@   ghost at return: lastCheckKey = usrID
+//@   ghost at return: lastCheckLeft = left
 
 //@ func (ab *authRateLimiter) inc(usrID string)
 //@   property C12
@@ -266,5 +268,27 @@ package home
 //@   trusted
 //@   modifies nothing
 //@ func glProcessRedirect(w http.ResponseWriter, r *http.Request) (r0 bool)
+//@   trusted
+//@   modifies nothing
+
+// ---- C12 (continued): login handler ----
+// The throttling key is the transport-level peer address (never a client-controlled header), the same key is used for
+// the check and for the count, and the password is evaluated (newCookie) only after a check that found no active block.
+
+//@ ghost var lastCheckKey string
+//@ ghost var lastCheckLeft int
+
+//@ func realIP(r *http.Request) (ip netip.Addr, err error)
+//@   trusted
+//@   modifies nothing
+
+//@ func handleLogin(w http.ResponseWriter, r *http.Request)
+//@   property C12
+//@   requires globalContext.auth != nil && (globalContext.auth.rateLimiter != nil ==> !held(globalContext.auth.rateLimiter.failedAuthsLock))
+//@   modifies *
+//@   callsite (*github.com/AdguardTeam/AdGuardHome/internal/home.authRateLimiter).check(ab, usrID) requires usrID == netutil.SplitHost(r.RemoteAddr)
+//@   callsite (*github.com/AdguardTeam/AdGuardHome/internal/home.Auth).newCookie(a, req, addr) requires addr == netutil.SplitHost(r.RemoteAddr) && (a.rateLimiter == nil || (lastCheckKey == addr && lastCheckLeft <= 0))
+
+//@ func (a *Auth) newCookie(req loginJSON, addr string) (c *http.Cookie, err error)
 //@   trusted
 //@   modifies nothing
